@@ -444,10 +444,18 @@ type vdrFileCache struct {
 func getArgsToFilesMap(fileArgs map[string]map[Nodable]struct{},
 	outs LazyArgumentMap,
 	debug bool, fqname string) map[string]map[string]struct{} {
+	return getTypedArgsToFilesMap(fileArgs, outs, nil, nil, debug, fqname)
+}
+
+// Like getArgsToFilesMap, for outputs with the given parameters.
+func getTypedArgsToFilesMap(fileArgs map[string]map[Nodable]struct{},
+	outs LazyArgumentMap,
+	params *syntax.OutParams, lookup *syntax.TypeLookup,
+	debug bool, fqname string) map[string]map[string]struct{} {
 	argToFiles := make(map[string]map[string]struct{}, len(fileArgs))
 	// Get the set of files each argument refers to.
 	for arg := range fileArgs {
-		for _, name := range getMaybeFileNames(outs.jsonPath(arg)) {
+		for _, name := range getMaybeFileNames(outs.typedPath(arg, params, lookup)) {
 			for _, fullName := range getLogicalFileNames(name) {
 				fileSet := argToFiles[arg]
 				if fileSet == nil {
@@ -597,9 +605,10 @@ func (self *Fork) cacheParamFileMap(outs LazyArgumentMap) {
 	if outs == nil {
 		return
 	}
-	argToFiles := getArgsToFilesMap(
+	argToFiles := getTypedArgsToFilesMap(
 		self.fileArgs,
 		outs,
+		self.OutParams(), self.node.top.types,
 		self.node.top.rt.Config.Debug,
 		self.node.GetFQName())
 	// Remove "file" args which don't actually refer to existing files.
